@@ -395,5 +395,5 @@ LEVEL_NOTE = ("Trusted: Coq kernel + vm_compute, std++, Base/Api.v as a model of
               "single blanks) of every well-formed line list that the scans recover the line list and the character-level reader returns the closed-form "
               "circuit (C15_scan_canonical, C15_read_text_canonical), and the same for EVERY layout (C15_scan_layout, C15_read_text_layout): keyword case, "
               "arbitrary whitespace at every position the patterns allow, blanks around operands, comments with any content, blank lines, several "
-              "statements per line, any line order. Outside the layout theorem: a final comment without terminating newline (compared per generated text).")
+              "statements per line, a final unterminated comment, any line order. Texts outside the dialect (malformed stream) are compared per generated text.")
 TECHNIQUE = "Coq proof (per-line denotation, closed-form reader/writer theorems) + regenerated tables + vm_compute correspondence and denotation oracle"
